@@ -96,7 +96,8 @@ func genStatelessFilter(r *vk.RNG, d *Dataset) filt {
 		src := genRegex(r, 2)
 		if r.Bool() {
 			// derived from an actual line so that it often matches some but not all records
-			src = regexp.QuoteMeta(genNeedle(r, d)) + vk.Pick(r, []string{"", ".*", ".", "[a-z0-9]?", "$"})
+			// (anchored pure literals are what regexp "optimisations" special-case)
+			src = vk.Pick(r, []string{"", "", "^", "(?s)^"}) + regexp.QuoteMeta(genNeedle(r, d)) + vk.Pick(r, []string{"", ".*", ".", "[a-z0-9]?", "$", "$", "\\z"})
 			if _, err := regexp.Compile(src); err != nil {
 				src = "r[0-9]"
 			}
